@@ -410,6 +410,9 @@ class Contract:
     frame = True           # False: no frame obligations (contracts that state memory safety only)
     cases = (None,)
     loops = None           # {ordinal: LoopSpec}
+    helper = False         # True: a `static` helper that is NOT the property's mechanism (its exact behaviour is a representation choice of the
+                           # file): its obligations are tagged {"helper": True}; engine/cli.py then turns a reproduced counter-model of this
+                           # contract into a violation only when the statement-level oracle finds a failing input as well
     roles = None           # {name the contract uses for a local: role}: resolved on the AST when no local of that name is in scope
                            # (resolve_role: ("ivar", loop #) / ("counter", loop #) / ("array", "element type")), so renames keep the contract bound
 
@@ -876,6 +879,8 @@ def verify(run, prop, tu, contract_cls, case_filter=None, tag_extra=None):
         reqs = holder.get("reqs", [])
         inputs = holder.get("inputs", {})
         base_tag = {"side": "c", "func": fname, "file": tu.relfile, "case": cs}
+        if getattr(contract, "helper", False):
+            base_tag["helper"] = True
         base_tag.update(tag_extra or {})
         run.add(Cover(prop, fname, "requires_satisfiable", [g for _, g in reqs], case=cs, where=where, tag=dict(base_tag)))
         seen = set()
